@@ -2,6 +2,7 @@ import Driver.Proto
 import Driver.C17
 import Driver.C05
 import Driver.Ref
+import Driver.C19
 
 open Driver
 
@@ -20,6 +21,15 @@ def main (args : List String) : IO UInt32 := do
     return 0
   | ["ref"] =>
     forLines stdin fun l => stdout.putStrLn (refLine (fields l))
+    return 0
+  | ["c19map"] =>
+    forLines stdin fun l => stdout.putStrLn (c19Map (fields l))
+    return 0
+  | ["c19vec"] =>
+    forLines stdin fun l => stdout.putStrLn (c19Vec (fields l))
+    return 0
+  | ["c19queue"] =>
+    forLines stdin fun l => stdout.putStrLn (c19Queue (fields l))
     return 0
   | _ =>
     IO.eprintln "usage: cbdriver <cmd>"
